@@ -20,7 +20,8 @@ def main():
     for p in props:
         pid = p["id"]
         path = os.path.join(core.HOME, "vf", "props", pid.lower() + ".py")
-        if not os.path.exists(path):
+        ready = set(open(os.path.join(core.HOME, "vf", "READY")).read().split())
+        if not os.path.exists(path) or pid not in ready:
             na.append(dict(property_id=pid, reason=NA_REASONS.get(
                 pid, "no check registered yet (runtime monitoring applies; check under construction)")))
             continue
